@@ -31,7 +31,7 @@ func init() {
 	register(&propSpec{ID: "C17", MinFuncs: 40, Check: checkC17,
 		Scope: Scope{Include: []string{"pkg/base/nt/"}}})
 	register(&propSpec{ID: "C18", FrameScope: Scope{Include: []string{"pkg/commitments/"}}, MinFrame: 2, MinFuncs: 20, Check: checkC18,
-		Scope: Scope{Include: []string{"pkg/commitments/"}}})
+		Scope: Scope{Include: []string{"pkg/commitments/", "pkg/encryption/", "pkg/base/nt/znstar/"}}})
 	register(&propSpec{ID: "C19", FrameScope: Scope{Include: []string{"pkg/transcripts/", "pkg/hashing/", "pkg/base/curves/impl/rfc9380/"}}, MinFrame: 3, MinFuncs: 15, Check: checkC19,
 		Scope: Scope{Include: []string{"pkg/transcripts/", "pkg/base/curves/impl/rfc9380/", "pkg/hashing/"}}})
 }
@@ -54,7 +54,10 @@ func genericGuards(r *Run) {
 	r.CheckSelfComparison(r.Prop+".G9", spec.Scope)
 }
 
-func checkC02(r *Run) { genericGuards(r) }
+func checkC02(r *Run) {
+	genericGuards(r)
+	r.CheckOperandImmutability("C02.I1", Scope{Include: []string{"pkg/mpc/sharing/"}}, 20)
+}
 func checkC04(r *Run) {
 	genericGuards(r)
 	checkBlame(r, protoScope, 95)
@@ -82,6 +85,23 @@ func checkC15(r *Run) {
 	r.CheckSelectorDisjoint("C15.S1", Scope{Include: []string{"pkg/signatures/"}}, 2)
 }
 func checkC16(r *Run) { genericGuards(r) }
-func checkC17(r *Run) { genericGuards(r) }
+func checkC17(r *Run) {
+	genericGuards(r)
+	r.CheckOkFlags("C17.O1", Scope{Include: []string{"pkg/base/nt/", "pkg/encryption/", "pkg/proofs/", "pkg/commitments/"}}, okFlagExempt, 50)
+}
+
+// each entry confirmed by reading the site: the dominating fact that makes the flag constant, or the API that has no way to report it
+var okFlagExempt = map[string]string{
+	"pkg/base/nt/modular.(*OddPrimeFactors).ModExpI -> pkg/base/nt/modular.(*OddPrimeFactors).ModInv":             "ModExpI has no failure result by API; the inverse is only selected (CondAssign) for negative exponents, callers pass units (recorded as the tree's behaviour, not judged)",
+	"pkg/base/nt/modular.(*OddPrimeSquareFactors).ModExpI -> pkg/base/nt/modular.(*OddPrimeSquareFactors).ModInv": "same as OddPrimeFactors.ModExpI",
+	"pkg/base/nt/num.(*Uint).TryInv -> pkg/base/nt/numct.(*ModulusBasic).ModInv":                                   "dominated by the u.IsUnit() failure guard: the inverse exists",
+	"pkg/base/nt/numct.(*Int).DivVarTime -> pkg/base/nt/numct.(*Nat).EuclideanDivVarTime":                          "explicit discard; quotient/remainder sign handling follows, divisor validity is the caller's contract in this var-time helper",
+	"pkg/base/nt/numct.(*Nat).SetRandomRangeH -> pkg/base/nt/numct.(*Nat).SetBytes":                                "Nat.SetBytes of a freshly read buffer cannot fail (any byte string is a natural)",
+	"pkg/base/nt/numct.LCM -> pkg/base/nt/numct.(*Nat).EuclideanDivVarTime":                                        "gcd of two non-zero values is non-zero (zero operands return earlier); the remainder is checked right after",
+	"pkg/base/nt/numct.LCM -> pkg/base/nt/numct.NewModulus":                                                        "gcd of two non-zero values is non-zero, NewModulus cannot fail",
+	"pkg/base/nt/numct.NewIntFromBytes -> pkg/base/nt/numct.(*Int).SetBytes":                                       "Int.SetBytes of an arbitrary byte string cannot fail",
+	"pkg/proofs/paillier/lp.(*Prover).Round4 -> pkg/base/nt/numct.(*ModulusBasic).ModInv":                          "N is coprime to phi(N) for a valid Paillier key held by the prover (own secret key)",
+	"pkg/proofs/paillier/lpdl.initRangeProtocol -> pkg/base/nt/numct.(*Nat).EuclideanDivVarTime":                   "division by the constant 3",
+}
 func checkC18(r *Run) { genericGuards(r) }
 func checkC19(r *Run) { genericGuards(r) }
